@@ -1088,7 +1088,8 @@ func (ex *Exec) callSiteOrd(fn *ssa.Function, x ssa.CallInstruction) int {
 		return 0
 	}
 	callee := x.Common().StaticCallee()
-	if callee == nil {
+	method := x.Common().Method
+	if callee == nil && method == nil {
 		return 0
 	}
 	type site struct {
@@ -1098,7 +1099,11 @@ func (ex *Exec) callSiteOrd(fn *ssa.Function, x ssa.CallInstruction) int {
 	var sites []site
 	for _, b := range fn.Blocks {
 		for _, in := range b.Instrs {
-			if ci, ok := in.(ssa.CallInstruction); ok && ci.Common().StaticCallee() == callee {
+			ci, ok := in.(ssa.CallInstruction)
+			if !ok {
+				continue
+			}
+			if callee != nil && ci.Common().StaticCallee() == callee || callee == nil && ci.Common().Method == method {
 				sites = append(sites, site{ci.Pos(), ci})
 			}
 		}
